@@ -72,8 +72,7 @@ Proof.
   intros Hd Hf. rewrite <- (E_zero d). apply E_mono; assumption.
 Qed.
 
-(* ---- conditioning ---- *)
-Definition ind (b : bool) : Qc := if b then 1 else 0.
+(* ---- conditioning ([ind] is Wp.ind : bool -> Qc) ---- *)
 
 Definition restrict {A} (ev : A -> bool) (d : dist A) : dist A := filter (fun wa => ev (snd wa)) d.
 Definition prob {A} (d : dist A) (ev : A -> bool) : Qc := E d (fun a => ind (ev a)).
@@ -267,3 +266,271 @@ Section AfterLoopSem.
     reflexivity.
   Qed.
 End AfterLoopSem.
+
+(* ------------------------------------------------------------------------------------ *)
+(* Part 2: what get_moment_given_termination computes, on the flat program               *)
+
+Section AfterLoopFlat.
+  Variable law : string -> list Qc -> dist Qc.
+  Variable cmom : string -> list Qc -> nat -> Qc.
+
+  (* get_moment_poly: the moment of a polynomial is assembled from the moments of its monomials *)
+  Definition moment_poly (d : dist state) (p : poly) : Qc :=
+    fold_right (fun t acc => fst t * E d (eval_mono (snd t)) + acc) 0 p.
+
+  Theorem moment_poly_linear d p : moment_poly d p = E d (eval_poly p).
+  Proof.
+    induction p as [|[c m] p IH]; cbn [moment_poly fold_right eval_poly fst snd].
+    - symmetry. apply E_zero.
+    - fold (moment_poly d p). rewrite IH, E_add, E_cmul. reflexivity.
+  Qed.
+
+  (* on validated types, the moments of  M * to_arithm(c)  are the moments of M on the event c *)
+  Theorem indicator_moment_exact fp T c q M :
+    check_types fp T = true -> forall s0, init_ok fp T s0 -> arith T c = Some q ->
+    forall n, E (frun law fp n s0) (eval_poly (pmul M q)) =
+              E (frun law fp n s0) (fun s => ind (holds c s) * eval_poly M s).
+  Proof.
+    intros HT s0 H0 Hq n. apply E_ext_in. intros w s Hin.
+    rewrite eval_pmul, (arith_sound T s c q); [ring | | exact Hq].
+    eapply check_types_sound; eauto. exists w; exact Hin.
+  Qed.
+
+  (* C09, finite n: the ratio of the two solved moment polynomials is the conditional
+     expectation of M given that the stored guard G' is false in the state after n iterations *)
+  Theorem cond_moment_exact fp T G' q M :
+    check_types fp T = true -> forall s0, init_ok fp T s0 -> arith T (CNot G') = Some q ->
+    forall n, let d := frun law fp n s0 in
+      moment_poly d (pmul M q) / moment_poly d q =
+      cond_exp d (fun s => negb (holds G' s)) (eval_poly M).
+  Proof.
+    intros HT s0 H0 Hq n d. unfold cond_exp, prob. rewrite !moment_poly_linear. unfold d.
+    rewrite (indicator_moment_exact fp T (CNot G') q M HT s0 H0 Hq n).
+    assert (ED : E (frun law fp n s0) (eval_poly q) = E (frun law fp n s0) (fun s => ind (negb (holds G' s)))).
+    { apply E_ext_in. intros w s Hin.
+      rewrite (arith_sound T s (CNot G') q); [reflexivity | | exact Hq].
+      eapply check_types_sound; eauto. exists w; exact Hin. }
+    rewrite ED. reflexivity.
+  Qed.
+
+  (* ---- total mass one (the constant term of an indicator polynomial is kept as it is) ---- *)
+  Definition fp_mass_one (fp : flatprog) : bool :=
+    forallb (fun g => mass_oneb cmom (ga_rhs g)) (fp_init fp) && forallb (fun g => mass_oneb cmom (ga_rhs g)) (fp_body fp).
+
+  Lemma exec_ga_mass g s : cmom_ok law cmom -> mass_oneb cmom (ga_rhs g) = true -> mass (exec_ga law g s) = 1.
+  Proof.
+    intros Hc Hm. unfold mass, exec_ga. destruct (holds (ga_cond g) s).
+    - rewrite E_bind. rewrite (E_ext _ _ (fun _ => 1)) by (intros v; rewrite E_ret; reflexivity).
+      apply (mass_oneb_sound law cmom _ s Hc Hm).
+    - rewrite E_ret. reflexivity.
+  Qed.
+
+  Lemma exec_gas_mass l : cmom_ok law cmom -> forallb (fun g => mass_oneb cmom (ga_rhs g)) l = true ->
+    forall s, mass (exec_gas law l s) = 1.
+  Proof.
+    intros Hc; induction l as [|g l IH]; cbn [forallb exec_gas]; intros H s; [unfold mass; rewrite E_ret; reflexivity|].
+    apply andb_true_iff in H; destruct H as [Hg Hl]. unfold mass. rewrite E_bind.
+    rewrite (E_ext _ _ (fun _ => 1)) by (intros s'; apply (IH Hl s')).
+    apply (exec_ga_mass g s Hc Hg).
+  Qed.
+
+  Lemma frun_mass fp : cmom_ok law cmom -> fp_mass_one fp = true -> forall n s0, mass (frun law fp n s0) = 1.
+  Proof.
+    intros Hc H. unfold fp_mass_one in H. apply andb_true_iff in H; destruct H as [Hi Hb].
+    intros n s0; induction n as [|n IH]; cbn [frun]; [apply exec_gas_mass; assumption|].
+    unfold mass. rewrite E_bind. rewrite (E_ext _ _ (fun _ => 1)); [exact IH|].
+    intros s. apply (exec_gas_mass (fp_body fp) Hc Hb s).
+  Qed.
+
+  (* ------------------------------------------------------------------------------------ *)
+  (* Part 3: validator for Polar's numerator / denominator closed forms                    *)
+
+  Record sysd := { s_ms : list mono; s_A : list (list Qc); s_v : list Qc;
+                   s_F : list (epoly Qc_cring); s_sp : list (list Qc) }.
+  (* a term of an expanded polynomial: coefficient, monomial, (index of the system that solved
+     it, index of the monomial inside that system) *)
+  Definition term : Type := ((Qc * mono) * (nat * nat))%type.
+
+  Definition sys_ok (fp : flatprog) (T : tenv) (sd : sysd) : bool :=
+    check_pipeline cmom fp T (s_ms sd) (s_A sd) (s_v sd) (s_F sd) (s_sp sd).
+
+  Definition sys_seq (sd : sysd) (k n : nat) : Qc := nth k (pw_eval (R := Qc_cring) (s_F sd) (s_sp sd) n) 0.
+
+  Definition term_seq (Ss : list sysd) (t : term) (n : nat) : Qc :=
+    match nth_error Ss (fst (snd t)) with
+    | Some sd => fst (fst t) * sys_seq sd (snd (snd t)) n
+    | None => 0
+    end.
+  Fixpoint comb_seq (Ss : list sysd) (ts : list term) (n : nat) : Qc :=
+    match ts with [] => 0 | t :: ts' => term_seq Ss t n + comb_seq Ss ts' n end.
+
+  Definition term_ok (Ss : list sysd) (t : term) : bool :=
+    match nth_error Ss (fst (snd t)) with
+    | Some sd => match nth_error (s_ms sd) (snd (snd t)) with
+                | Some m' => mono_eqb (mnorm (snd (fst t))) (mnorm m')
+                | None => false
+                end
+    | None => false
+    end.
+
+  Definition terms_poly (c0 : Qc) (ts : list term) : poly := (c0, []) :: map fst ts.
+
+  Lemma sys_seq_exact fp T sd s0 k m n :
+    cmom_ok law cmom -> sys_ok fp T sd = true -> init_ok fp T s0 ->
+    nth_error (s_ms sd) k = Some m ->
+    sys_seq sd k n = E (frun law fp n s0) (eval_mono m).
+  Proof.
+    intros Hc HS H0 Hk. unfold sys_seq, sys_ok in *.
+    rewrite (check_pipeline_sound law cmom fp T _ _ _ _ _ Hc HS s0 H0 n).
+    unfold moments_vec.
+    apply nth_error_nth. rewrite (map_nth_error _ _ _ Hk). reflexivity.
+  Qed.
+
+  Lemma comb_seq_exact fp T Ss ts s0 n :
+    cmom_ok law cmom -> forallb (sys_ok fp T) Ss = true -> init_ok fp T s0 ->
+    forallb (term_ok Ss) ts = true ->
+    comb_seq Ss ts n = E (frun law fp n s0) (eval_poly (map fst ts)).
+  Proof.
+    intros Hc HSs H0. induction ts as [|[[c m] [j k]] ts IH]; cbn [forallb comb_seq map eval_poly fst snd]; intros Hts.
+    - symmetry. apply E_zero.
+    - apply andb_true_iff in Hts; destruct Hts as [Ht Hts].
+      rewrite E_add, E_cmul, <- (IH Hts). f_equal.
+      unfold term_ok, term_seq in *. cbn [fst snd] in *.
+      destruct (nth_error Ss j) as [sd|] eqn:Ej; [|discriminate].
+      destruct (nth_error (s_ms sd) k) as [m'|] eqn:Ek; [|discriminate].
+      apply mono_eqb_eq in Ht.
+      rewrite forallb_forall in HSs. pose proof (HSs sd (nth_error_In _ _ Ej)) as HS.
+      rewrite (sys_seq_exact fp T sd s0 k m' n Hc HS H0 Ek). f_equal.
+      apply E_ext. intros s. rewrite <- (eval_mnorm m s), <- (eval_mnorm m' s), Ht. reflexivity.
+  Qed.
+
+  Lemma terms_poly_exact fp T Ss c0 ts s0 n :
+    cmom_ok law cmom -> fp_mass_one fp = true -> forallb (sys_ok fp T) Ss = true -> init_ok fp T s0 ->
+    forallb (term_ok Ss) ts = true ->
+    c0 + comb_seq Ss ts n = E (frun law fp n s0) (eval_poly (terms_poly c0 ts)).
+  Proof.
+    intros Hc Hm HSs H0 Hts. unfold terms_poly. cbn [eval_poly eval_mono].
+    rewrite E_add, E_const, (frun_mass fp Hc Hm n s0), (comb_seq_exact fp T Ss ts s0 n Hc HSs H0 Hts). ring.
+  Qed.
+
+  (* one sequence with listed special values, as Polar's Piecewise((v0, n<=0), ..., (general, True)) *)
+  Definition pw1 (f : epoly Qc_cring) (sp : list Qc) (n : nat) : Qc :=
+    if n <? List.length sp then nth n sp 0 else eeval f n.
+
+  Definition term_epoly (Ss : list sysd) (t : term) : epoly Qc_cring :=
+    match nth_error Ss (fst (snd t)) with
+    | Some sd => escale (R := Qc_cring) (fst (fst t)) (nth (snd (snd t)) (s_F sd) [])
+    | None => []
+    end.
+  Fixpoint comb_epoly (Ss : list sysd) (ts : list term) : epoly Qc_cring :=
+    match ts with [] => [] | t :: ts' => eadd (term_epoly Ss t) (comb_epoly Ss ts') end.
+
+  Definition max_sp (Ss : list sysd) : nat := fold_right (fun sd acc => Nat.max (List.length (s_sp sd)) acc) O Ss.
+
+  (* the claimed closed form (f, sp) is  c0 + sum of the terms' validated closed forms: equal as
+     exponential polynomials, and equal value by value below the largest cut-off *)
+  Definition check_comb (Ss : list sysd) (c0 : Qc) (ts : list term) (f : epoly Qc_cring) (sp : list Qc) : bool :=
+    eeq (R := Qc_cring) f (eadd (econst (R := Qc_cring) c0) (comb_epoly Ss ts))
+    && forallb (fun i => Qc_eqb (pw1 f sp i) (c0 + comb_seq Ss ts i)) (seq 0 (Nat.max (List.length sp) (max_sp Ss))).
+
+  Lemma max_sp_ge Ss sd : In sd Ss -> (List.length (s_sp sd) <= max_sp Ss)%nat.
+  Proof.
+    induction Ss as [|sd' Ss IH]; intros Hin; [destruct Hin|]. cbn [max_sp fold_right]. fold (max_sp Ss).
+    destruct Hin as [->|Hin]; [apply Nat.le_max_l | etransitivity; [apply IH; exact Hin | apply Nat.le_max_r]].
+  Qed.
+
+  Lemma comb_epoly_eval Ss ts n : (max_sp Ss <= n)%nat ->
+    eeval (comb_epoly Ss ts) n = comb_seq Ss ts n.
+  Proof.
+    intros Hn. induction ts as [|[[c m] [j k]] ts IH]; cbn [comb_epoly comb_seq]; [reflexivity|].
+    rewrite eeval_eadd, IH. unfold term_epoly, term_seq. cbn [fst snd].
+    destruct (nth_error Ss j) as [sd|] eqn:Ej; [|reflexivity].
+    rewrite eeval_escale. unfold sys_seq, pw_eval.
+    pose proof (max_sp_ge Ss sd (nth_error_In _ _ Ej)) as Hle.
+    match goal with |- context [Nat.ltb n ?L] =>
+      assert (Hlt : Nat.ltb n L = false) by (apply Nat.ltb_ge; exact (Nat.le_trans _ _ _ Hle Hn)) end.
+    rewrite Hlt. unfold evalF.
+    pose proof (map_nth (fun f : epoly Qc_cring => eeval f n) (s_F sd) [] k) as Hmn.
+    apply (f_equal (fun x => Qcplus (Qcmult c x) (comb_seq Ss ts n))). symmetry. exact Hmn.
+  Qed.
+
+  Lemma check_comb_sound Ss c0 ts f sp :
+    check_comb Ss c0 ts f sp = true -> forall n, pw1 f sp n = c0 + comb_seq Ss ts n.
+  Proof.
+    unfold check_comb. intros H n. apply andb_true_iff in H; destruct H as [Heq Hsp].
+    destruct (Nat.ltb n (Nat.max (List.length sp) (max_sp Ss))) eqn:En.
+    - apply Nat.ltb_lt in En. rewrite forallb_forall in Hsp.
+      apply Qc_eqb_true. apply Hsp. apply in_seq. lia.
+    - apply Nat.ltb_ge in En.
+      assert (Hlt : (n <? List.length sp) = false) by (apply Nat.ltb_ge; lia).
+      unfold pw1. rewrite Hlt.
+      rewrite (eeq_sound Qc_cring _ _ Heq n), eeval_eadd, eeval_econst, comb_epoly_eval by lia.
+      reflexivity.
+  Qed.
+
+  Definition check_exit (fp : flatprog) (T : tenv) (G' : cond) (M : poly) (Ss : list sysd)
+             (c0N : Qc) (tsN : list term) (fN : epoly Qc_cring) (spN : list Qc)
+             (c0D : Qc) (tsD : list term) (fD : epoly Qc_cring) (spD : list Qc) : bool :=
+    check_types fp T && fp_mass_one fp && forallb (sys_ok fp T) Ss
+    && forallb (term_ok Ss) tsN && forallb (term_ok Ss) tsD
+    && match arith T (CNot G') with
+       | Some q => pequiv T (terms_poly c0D tsD) q && pequiv T (terms_poly c0N tsN) (pmul M q)
+       | None => false
+       end
+    && check_comb Ss c0N tsN fN spN && check_comb Ss c0D tsD fD spD.
+
+  (* acceptance: Polar's numerator and denominator closed forms are, at EVERY n, the expectation
+     of M on the event "stored guard false" and the probability of that event, in the flat
+     program; their ratio is the conditional expectation *)
+  Theorem check_exit_sound fp T G' M Ss c0N tsN fN spN c0D tsD fD spD :
+    cmom_ok law cmom ->
+    check_exit fp T G' M Ss c0N tsN fN spN c0D tsD fD spD = true ->
+    forall s0, init_ok fp T s0 -> forall n,
+      let d := frun law fp n s0 in
+      pw1 fN spN n = E d (fun s => ind (negb (holds G' s)) * eval_poly M s) /\
+      pw1 fD spD n = prob d (fun s => negb (holds G' s)) /\
+      pw1 fN spN n / pw1 fD spD n = cond_exp d (fun s => negb (holds G' s)) (eval_poly M).
+  Proof.
+    intros Hc H s0 H0 n d. unfold check_exit in H.
+    apply andb_true_iff in H; destruct H as [H HcD].
+    apply andb_true_iff in H; destruct H as [H HcN].
+    apply andb_true_iff in H; destruct H as [H Har].
+    apply andb_true_iff in H; destruct H as [H HtD].
+    apply andb_true_iff in H; destruct H as [H HtN].
+    apply andb_true_iff in H; destruct H as [H HSs].
+    apply andb_true_iff in H; destruct H as [H Hm].
+    destruct (arith T (CNot G')) as [q|] eqn:Eq; [|discriminate].
+    apply andb_true_iff in Har; destruct Har as [HpD HpN].
+    assert (Htyped : forall w s, In (w, s) d -> typed T s).
+    { intros w s Hin. eapply check_types_sound; eauto. exists w; exact Hin. }
+    assert (EN : pw1 fN spN n = E d (fun s => ind (negb (holds G' s)) * eval_poly M s)).
+    { rewrite (check_comb_sound _ _ _ _ _ HcN n).
+      rewrite (terms_poly_exact fp T Ss c0N tsN s0 n Hc Hm HSs H0 HtN). fold d.
+      apply E_ext_in. intros w s Hin.
+      rewrite (pequiv_sound T _ _ HpN s (Htyped w s Hin)), eval_pmul.
+      rewrite (arith_sound T s (CNot G') q (Htyped w s Hin) Eq). cbn [holds]. ring. }
+    assert (ED : pw1 fD spD n = prob d (fun s => negb (holds G' s))).
+    { rewrite (check_comb_sound _ _ _ _ _ HcD n).
+      rewrite (terms_poly_exact fp T Ss c0D tsD s0 n Hc Hm HSs H0 HtD). fold d. unfold prob.
+      apply E_ext_in. intros w s Hin.
+      rewrite (pequiv_sound T _ _ HpD s (Htyped w s Hin)).
+      rewrite (arith_sound T s (CNot G') q (Htyped w s Hin) Eq). reflexivity. }
+    split; [exact EN | split; [exact ED|]].
+    unfold cond_exp. rewrite EN, ED. reflexivity.
+  Qed.
+End AfterLoopFlat.
+
+(* ------------------------------------------------------------------------------------ *)
+(* executable oracle: exact  P(guard false after n iterations)  and  E[M ; guard false]  of a
+   SOURCE program under Sem.run (compacted as in Search.run_c; the harness cross-checks the
+   compacted computation against the plain one for small n) *)
+Definition exit_row (p : prog) (ms : list mono) (d : dist state) : list (Z * positive) :=
+  qpair (prob d (stopped p)) :: map (fun m => qpair (E d (fun s => ind (stopped p s) * eval_mono m s))) ms.
+Fixpoint exit_moments_aux (vs : list var) (p : prog) (ms : list mono) (d : dist state) (N : nat)
+  : list (list (Z * positive)) :=
+  exit_row p ms d ::
+  match N with O => [] | S N' => exit_moments_aux vs p ms (compact vs (bind d (iter no_law p))) N' end.
+Definition exit_moments (vs : list var) (p : prog) (ms : list mono) (N : nat) : list (list (Z * positive)) :=
+  exit_moments_aux vs p ms (compact vs (exec_block no_law (p_init p) st0)) N.
+Definition exit_moments_plain (p : prog) (ms : list mono) (N : nat) : list (list (Z * positive)) :=
+  map (fun n => exit_row p ms (run no_law p n st0)) (seq 0 (S N)).
